@@ -92,7 +92,12 @@ PROBE_CMD(sched_apply) {
         const Opm::Action::ActionX action = (*b.sched)[step].actions()[name];
         auto result = Opm::Action::Result{true};
         result.wells(wells);
-        const std::unordered_map<std::string, double> wellpi;
+        // current productivity index of every well, as the simulator would supply it (needed by WELPI in an action)
+        std::unordered_map<std::string, double> wellpi;
+        if (const cJSON* wp = jget(req, "wellpi")) {
+            for (const cJSON* e = wp->child; e; e = e->next)
+                if (e->string && cJSON_IsNumber(e)) wellpi[e->string] = e->valuedouble;
+        }
         auto upd = b.sched->applyAction(step, action, result.matches(), wellpi);
         out.obj().key("affected_wells").arr();
         std::vector<std::string> aw(upd.affected_wells.begin(), upd.affected_wells.end());
